@@ -6,7 +6,7 @@ VERIF = os.path.dirname(os.path.dirname(os.path.abspath(__file__)))
 CHECKS = {
  "C01": dict(cat="exploration", design="DESIGN.md §4 C01",
    technique="stateful model-based property testing (rapid) against a sorted-map model; small-scope exhaustive enumeration in the thorough tier",
-   text="Generated histories (insert/update/delete/lookup/iterate/clone/persist/reload, every key and value type, bf 2-64, both formats, all cache kinds) are applied to mast and to a sorted-map model and compared after every step; thorough adds every insert/delete word of length <=5 over 4 user keys x 81 layer tables. Held-on-everything-explored, not a proof. One configuration in ten has a dense key universe of 150-900 keys with bulk inserts/deletes (height 2 at the default branch factor 16, up to 6 at bf 3). One configuration in eight uses the reverse of the default key order (a custom KeyCompare), and the key kinds include int32 and uint16 (ordered by their marshaled text).",
+   text="Generated histories (insert/update/delete/lookup/iterate/clone/persist/reload, every key and value type, bf 2-64, both formats, all cache kinds) are applied to mast and to a sorted-map model and compared after every step; thorough adds every insert/delete word of length <=5 over 4 user keys x 81 layer tables. Held-on-everything-explored, not a proof. One configuration in ten has a dense key universe of 150-900 keys with bulk inserts/deletes (height 2 at the default branch factor 16, up to 6 at bf 3). One configuration in eight uses the reverse of the default key order (a custom KeyCompare), and the key kinds include int32 and uint16 (ordered by their marshaled text). Value kinds include float64 with both zeros (one zero is never written over the other; reads are compared bit for bit).",
    note="Trusted: Go stdlib (encoding/json as the configured default marshaler), rapid, the harness' own model. Nil keys/values not generated."),
 
  "C02": dict(cat="exploration", design="DESIGN.md §4 C02",
@@ -19,7 +19,7 @@ CHECKS = {
    note="Trusted: harness/ref (pinned by C14's golden vectors), encoding/json. Custom marshaler only with the binary format."),
  "C05": dict(cat="exploration", design="DESIGN.md §4 C05",
    technique="round-trip property testing (persist -> load, Root via JSON) inside model-based histories; native coverage-guided fuzzing of literal keys/values in the thorough tier",
-   text="At every persist of generated histories (8 key types x 4 value types x 2 formats x default/custom codec x 7 cache kinds) the returned root is loaded four ways (direct / via JSON x shared cache / no cache) and compared with the model entry by entry plus Size, Height, BranchFactor and NodeFormat; histories continue on reloaded trees. Thorough adds a native coverage-guided fuzz target over literal keys and values (strings when valid UTF-8, else byte slices; corpus of lengths around the length-prefix boundaries) that checks stored bytes, names, the reference root and the reload.",
+   text="At every persist of generated histories (8 key types x 4 value types x 2 formats x default/custom codec x 7 cache kinds) the returned root is loaded four ways (direct / via JSON x shared cache / no cache) and compared with the model entry by entry plus Size, Height, BranchFactor and NodeFormat; histories continue on reloaded trees. Thorough adds a native coverage-guided fuzz target over literal keys and values (strings when valid UTF-8, else byte slices; corpus of lengths around the length-prefix boundaries) that checks stored bytes, names, the reference root and the reload. Value kinds include float64 with both zeros, compared bit for bit after the reload; every persisted root is also opened read-only without ValuesLike and must yield every key.",
    note="Only types whose encoding round-trips are generated (the property's own restriction)."),
  "C06": dict(cat="exploration", design="DESIGN.md §4 C06",
    technique="model-based differential property testing: DiffIter / StartDiff+NextEntry vs. the difference of two model maps",
@@ -31,7 +31,7 @@ CHECKS = {
    note="Versions whose roots are incomplete abort the case (C03's subject)."),
  "C08": dict(cat="exploration", design="DESIGN.md §4 C08",
    technique="property testing over every Store call with an independent hash and codec (decode/re-encode round-trip)",
-   text="Every Store(name, bytes) issued by generated histories is checked against an independent BLAKE2b-256/base64url, decoded and re-encoded byte-identically by the reference codec, and name<->bytes<->content must be functions; equal root names must have equal model contents.",
+   text="Every Store(name, bytes) issued by generated histories is checked against an independent BLAKE2b-256/base64url, decoded and re-encoded byte-identically by the reference codec, and name<->bytes<->content must be functions; equal root names must have equal model contents. Value kinds include float64 with both zeros; the last version is persisted again by a writer opened without ValuesLike (registered types) and must get the same root name.",
    note="Trusted: harness/ref BLAKE2b (RFC 7693 vector checked in C14) and codecs."),
  "C09": dict(cat="exploration", design="DESIGN.md §4 C09",
    technique="property testing with a reference shape validator over every persisted version; small-scope exhaustive enumeration (thorough)",
@@ -60,7 +60,7 @@ CHECKS = {
    note="Schedules are sampled, not enumerated; a race cannot be shrunk, the replay is the whole case."),
  "C12": dict(cat="fault_enumeration", design="DESIGN.md §4 C12",
    technique="exhaustive single-fault enumeration per generated (tree, operation): every Load / KeyCompare / Marshal call position, plus generated pairs",
-   text="A fault-free dry run counts the fallible callbacks of one operation on a deterministically rebuilt tree; every position is then failed in turn (tree rebuilt each time); when the call returns an error the tree must equal its pre-state (Size, Height, contents) and the retried call must give the normal result and post-state. Two open known findings (Insert growth phase, Delete shrink loop) are excluded by their error call site and reported as KNOWN-FINDING. Each exclusion additionally requires the finding's own precondition (size at the growth threshold / shrink actually due), computed from the model.",
+   text="A fault-free dry run counts the fallible callbacks of one operation on a deterministically rebuilt tree; every position is then failed in turn (tree rebuilt each time); when the call returns an error the tree must equal its pre-state (Size, Height, contents) and the retried call must give the normal result and post-state. Two open known findings (Insert growth phase, Delete shrink loop) are excluded by their error call site and reported as KNOWN-FINDING. Each exclusion additionally requires the finding's own precondition (size at the growth threshold / shrink actually due), computed from the model. Re-opened trees read through no cache or through a cold cache of their own (big or one-slot), so that anything an erroring call leaves behind in a cache is seen by the retry.",
    note="Calls that swallow a fault or panic under fault are outside the statement: counted, not judged."),
  "C14": dict(cat="exploration", design="DESIGN.md §4 C14",
    technique="golden reference vectors frozen from the pinned commit + differential property testing against an independent re-implementation of layer, order, hash and encoders",
@@ -72,7 +72,7 @@ CHECKS = {
    note="The un-numbered clause is checked with a generous sub-linear cap only where the tree is large enough to tell."),
  "C17": dict(cat="fault_enumeration", design="DESIGN.md §4 C17",
    technique="process-level crash-point enumeration: re-executed child with RLIMIT_FSIZE = cut offset (killed by SIGXFSZ or EFBIG returned), every offset for small payloads",
-   text="file.Persist.Store runs in a child process whose file-size limit is the cut offset: the kernel kills it at that byte (crash) or the write returns an I/O error; afterwards a fresh store must either not find the node or return it complete, success must mean complete, and a later Store must repair. Every offset 0..len is enumerated for 5 payload sizes in both modes; generated larger payloads and repeated cuts. Further modes: the same store object retries, 2-6 concurrent stores of the node, a context cancelled mid-write, a full file system, and a transient error (limit lifted right after the first failing write).",
+   text="file.Persist.Store runs in a child process whose file-size limit is the cut offset: the kernel kills it at that byte (crash) or the write returns an I/O error; afterwards a fresh store must either not find the node or return it complete, success must mean complete, and a later Store must repair. Every offset 0..len is enumerated for 5 payload sizes in both modes; generated larger payloads and repeated cuts. Further modes: the same store object retries, 2-6 concurrent stores of the node, a context cancelled mid-write, a full file system, and a transient error (limit lifted right after the first failing write). Stores run under the background context, a cancellable context nobody cancels, or a far deadline.",
    note="Tearing below the write syscall is not modelled."),
  "C18": dict(cat="exploration", design="DESIGN.md §4 C18",
    technique="stateful model-based property testing of the Persist contract across backends with a recording, fault-injecting fake S3 client",
